@@ -403,6 +403,8 @@ impl Ctx {
                     c.pat(&f.pat);
                     c.out.push('}');
                 });
+                self.comma();
+                self.kv("rest", if s.rest.is_some() { "1" } else { "0" });
                 self.close();
             }
             Pat::Tuple(t) => {
